@@ -17,6 +17,19 @@
 // through all three accessors (GetWantlist = "both want-blocks and want-haves", GetWantBlocks,
 // GetWantHaves); block sizes straddle the 1 KiB limit up to which a server answers a want-have
 // with the block instead of HAVE.
+//
+// Configuration: in half of the cases every node runs with short session timers
+// (bitswap.ProviderSearchDelay 5-30 ms, bitswap.RebroadcastDelay 10-25 ms instead of 1 s /
+// 1 min), so that the sessions' idle ticks and periodic searches fire while the case runs. If
+// such a case has a long-lived session (NewSession), the sessions are kept open after the
+// want-list was first seen clean for more than two timer periods and the list is polled again:
+// a cancelled or completed CID that a session timer puts back on the want-list for good is a
+// lingering want like any other (suspicion, then confirmation run).
+//
+// Not in the domain: connecting / disconnecting nodes while requests run. The property
+// quantifies over request sets, placement, duplicates, overlapping requests and sessions,
+// cancellation and latency on a network of connected nodes; testnet.VirtualNetwork does not even
+// model a lost connection (DisconnectFrom only raises the notification, messages still flow).
 package c37
 
 import (
@@ -917,7 +930,7 @@ func dedup(in []string) []string {
 
 var spec = kit.Spec[Case]{
 	Prop: "C37", Name: "main",
-	Rule:  "2-6 in-memory bitswap nodes on a VirtualNetwork (latency 0-3 ms), random block placement (some blocks held by nobody, some stored late), 1-3 concurrent requests (GetBlock, GetBlocks with duplicate keys, session GetBlocks, shared sessions, overlapping key sets, start delays), cancellation after a generated number of received blocks / delay; block sizes on both sides of the 1 KiB HAVE/block boundary; in half of the cases a second phase of 1-2 requests that starts after all earlier requests ended, mostly for CIDs the node asked for before; per-channel oracle and want-list cleanup polled after every phase through GetWantlist, GetWantBlocks and GetWantHaves; non-trivial = overlapping concurrent requests on one node, a cancellation with wants still outstanding, or a CID requested again after its earlier request ended",
+	Rule:  "2-6 in-memory bitswap nodes on a VirtualNetwork (latency 0-3 ms), random block placement (some blocks held by nobody, some stored late), 1-3 concurrent requests (GetBlock, GetBlocks with duplicate keys, session GetBlocks, shared sessions, overlapping key sets, start delays), cancellation after a generated number of received blocks / delay; block sizes on both sides of the 1 KiB HAVE/block boundary; in half of the cases a second phase of 1-2 requests that starts after all earlier requests ended, mostly for CIDs the node asked for before; in half of the cases short session timers on every node (ProviderSearchDelay 5-30 ms, RebroadcastDelay 10-25 ms) and, if the case uses a NewSession session, the sessions held open for > 2 timer periods after the want-list was first seen clean, then polled again; per-channel oracle and want-list cleanup polled after every phase through GetWantlist, GetWantBlocks and GetWantHaves; non-trivial = overlapping concurrent requests on one node, a cancellation with wants still outstanding, or a CID requested again after its earlier request ended",
 	Quick: 100, Thorough: 400,
 	Gen: gen, Run: run, Journal: true,
 }
